@@ -71,6 +71,9 @@ func newEventFromUntrustedJSONV3(eventJSON []byte, roomVersion IRoomVersion) (PD
 	if err := checkNoDuplicateKeys(eventJSON); err != nil {
 		return nil, BadJSONError{err}
 	}
+	if err := checkReceivedEventLength(eventJSON); err != nil {
+		return nil, err
+	}
 
 	res := &eventV3{}
 	var err error
